@@ -211,7 +211,7 @@ func genStress(r *vgen.Rng, tier string) []Case {
 		)
 		if tier == "thorough" {
 			for i := 0; i < 6; i++ {
-				out = append(out, Case{Stress: &Stress{Store: store, Workers: r.Range(2, 24), Pairs: pairs / 4 + r.Intn(pairs), Yield: r.Bool(), Procs: vgen.Pick(r, []int{0, 2, 4, 8})}})
+				out = append(out, Case{Stress: &Stress{Store: store, Workers: r.Range(2, 24), Pairs: pairs/4 + r.Intn(pairs), Yield: r.Bool(), Procs: vgen.Pick(r, []int{0, 2, 4, 8})}})
 			}
 		}
 	}
